@@ -90,7 +90,7 @@ def map_witnesses(tier):
     sizes = [[n] for n in range(1, 20)] + [[2, 3], [3, 3], [4, 4], [3, 5], [5, 7], [2, 3, 4], [8, 8], [9, 9]]
     for dims in sizes:
         for t in ('f64', 'f32', 'i32', 'i64'):
-            for kind in ('assign_expr', 'iadd', 'imul_scalar', 'self_expr', 'iadd_int', 'isub_int', 'imul_int', 'idiv_int', 'idiv_lit'):
+            for kind in ('assign_expr', 'iadd', 'imul_scalar', 'self_expr', 'fill', 'ones', 'zeros', 'iota', 'iadd_int', 'isub_int', 'imul_int', 'idiv_int', 'idiv_lit'):
                 W.append(c20.mk_map_op(t, dims, kind))
             for kind in ('expr', 'copy', 'sum'):
                 W.append(c20.mk_map_read(t, dims, kind))
